@@ -112,6 +112,7 @@ struct Run {
     int rm_twochild = 0, reput = 0, rm_absent = 0, rm_restructure = 0;
     long epoch_adv = 0; bool walked = false, changed_after_walk = false, rootchange_after_walk = false, nt_near = false;
     bool unfinished = false;
+    bool lookups_in_walk = false; long lookups_done = 0;
     int copies_outlived = 0;
     size_t maxn = 0;
     long walk_budget = 40000;
@@ -386,6 +387,17 @@ struct Run {
             bool r = qtreetbl_getnext(t, &cur, newmem);
             if (!r) { ended = true; break; }
             steps++;
+            if (lookups_in_walk && s.chance(1, 2)) {
+                // a read-only call on another key between two steps: the table stays unmodified
+                const std::string &gk = universe[s.range(0, (long)universe.size() - 1)];
+                Buf gb(gk); size_t gsz = 0;
+                int which = (int)s.range(0, 3);
+                if (which == 0) { void *p = qtreetbl_getobj(t, gb.p, gb.n, &gsz, false); auto gi = m.find(gk); if ((p != nullptr) != (gi != m.end() && gi->second.hasval) && !(gi != m.end() && !gi->second.hasval)) c.fail(FUNC, "tree:get-missing", "getobj(%s) between two steps of a walk: wrong presence", hexs(gk).c_str()); }
+                else if (which == 1) { size_t ns = 0; void *p = qtreetbl_find_min(t, &ns); free(p); }
+                else if (which == 2) { size_t ns = 0; void *p = qtreetbl_find_max(t, &ns); free(p); }
+                else (void)qtreetbl_size(t);
+                lookups_done++;
+            }
             if ((size_t)steps > guard) c.fail(ITER, "tree:walk-endless", "walk returned more than %zu entries for %zu keys", guard, m.size());
             if (asserted) {
                 if (it == m.end()) c.fail(ITER, "tree:walk-extra", "walk returned an extra entry %s after all %zu keys", hexs(cur.name, cur.namesize).c_str(), m.size());
@@ -420,7 +432,7 @@ struct Run {
             for (long i = 0; i < k; i++) do_walk(j, false, false);
             return;
         }
-        if (kind == 0) { c.op("walk(full,newmem=%d) n=%zu", (int)newmem, m.size()); do_walk(-1, newmem, true); }
+        if (kind == 0) { lookups_in_walk = s.chance(1, 3); c.op("walk(full,newmem=%d%s) n=%zu", (int)newmem, lookups_in_walk ? ", read-only calls on other keys between the steps" : "", m.size()); do_walk(-1, newmem, true); lookups_in_walk = false; }
         else if (kind == 1) { long j = s.range(0, (long)m.size()); c.op("walk(abandon after %ld) n=%zu", j, m.size()); do_walk(j, newmem, true); }
         else {
             long k = s.pick({3, 2, 1}) == 0 ? s.range(2, 20) : s.range(20, 300);
@@ -612,6 +624,7 @@ struct Run {
         vf_ledger_on = 0;
         c.tag(strkeys ? "string_keys" : "binary_keys"); c.tag(("cmp" + std::to_string(g_cmpkind)).c_str());
         if (put_failed_by_fault) c.tag("case_with_put_refused_under_allocation_failure");
+        if (lookups_done) c.tag("case_with_lookups_inside_a_walk");
         if (rm_twochild) c.tag("case_with_two_child_removal"); if (rm_restructure) c.tag("case_with_restructuring_removal");
         if (epoch_adv >= 256) c.tag("case_with_epoch_wrap"); if (maxn >= 100) c.tag("case_with_100+_keys");
         // non-triviality per property
